@@ -63,7 +63,7 @@ func genIssue(r *kit.Rng) *issueSpec {
 		Key:   pickSecret(r),
 		App:   kit.Pick(r, apps),
 		PType: kit.Pick(r, payloadTypes),
-		PVar:  r.Intn(5),
+		PVar:  r.Intn(10),
 		T0:    kit.Pick(r, []int64{0, 1000000, 999999999, sec, 12345678901, 86400 * sec}),
 		Dur: kit.Pick(r, []int64{1, 1000000, 999 * 1000000, sec, sec + 1, 1500 * 1000000, 2 * sec, 600 * sec, 600 * sec, 86400 * sec,
 			0, -sec, 3*sec - 1}),
@@ -258,7 +258,7 @@ func genForge(r *kit.Rng) (*forgeSpec, valSpec) {
 	if r.Chance(3, 5) {
 		f.Sign = fmt.Sprintf("k%d", v.Key)
 	}
-	m := goodClaims(ctx, r.Intn(5), kit.Pick(r, []int64{600 * sec, 2 * sec, sec}))
+	m := goodClaims(ctx, r.Intn(10), kit.Pick(r, []int64{600 * sec, 2 * sec, sec}))
 	nEdits := kit.Pick(r, []int{1, 1, 1, 2})
 	for i := 0; i < nEdits; i++ {
 		e := kit.Pick(r, claimEdits)
